@@ -292,6 +292,8 @@ def replay(keys, ops):
     try:
         log = drv(keys, ops)
     except Exception as ex:  # noqa
+        from pysym.harness import guard_repo_exception
+        guard_repo_exception(ex)
         return {"input": [keys, ops], "observed": f"raised {type(ex).__name__}: {ex}", "expected": "only ValueError, handled"}
     f = failing(log)
     if not f:
